@@ -6,6 +6,7 @@ package main
 
 import (
 	"fmt"
+	"math"
 	"os"
 	"path/filepath"
 	"go/constant"
@@ -135,6 +136,8 @@ type Exec struct {
 	callN  map[string]int
 	top    *Exec
 	aliasedBuf    *Alloc
+	cutRegs       map[string]*Term
+	concreteRet   map[string][]Value
 	inlineAll     bool
 	usedDirs      map[int]bool
 	phiNames      map[*ssa.Phi]string
@@ -993,7 +996,7 @@ func (ex *Exec) execInstr(ins ssa.Instruction, pc *Term, st *State) {
 	case *ssa.Field:
 		ex.env[i] = mapCond(ex.val(i.X), func(v Value) Value { return v.(*StructV).Fields[i.Field] })
 	case *ssa.IndexAddr:
-		idx := ex.term(ex.val(i.Index))
+		idx := asIndex(ex.term(ex.val(i.Index)))
 		ex.env[i] = mapCondG(ex.val(i.X), func(g *Term, v Value) Value {
 			gpc := And(pc, g)
 			switch x := v.(type) {
@@ -1012,7 +1015,7 @@ func (ex *Exec) execInstr(ins ssa.Instruction, pc *Term, st *State) {
 			return nil
 		})
 	case *ssa.Index:
-		idx := ex.term(ex.val(i.Index))
+		idx := asIndex(ex.term(ex.val(i.Index)))
 		ex.env[i] = mapCond(ex.val(i.X), func(v Value) Value {
 			if s, ok := v.(*Term); ok && s.Sort == SStr {
 				ex.vc.Oblige(ex.obName("safety", "index_in_range"), "safety", Implies(pc, And(ILe(IntLit(0), idx), ILt(idx, strLen(s)))))
@@ -1026,7 +1029,7 @@ func (ex *Exec) execInstr(ins ssa.Instruction, pc *Term, st *State) {
 			return nil
 		})
 	case *ssa.Lookup:
-		idx := ex.term(ex.val(i.Index))
+		idx := asIndex(ex.term(ex.val(i.Index)))
 		s := ex.term(ex.val(i.X))
 		if s.Sort != SStr {
 			ex.unsupported("Lookup on non-string")
@@ -1240,6 +1243,9 @@ func (ex *Exec) binop(i *ssa.BinOp, pc *Term) Value {
 			return ILe(y, x)
 		}
 	case SF64:
+		if r := intFloatOp(i.Op, x, y); r != nil {
+			return r
+		}
 		switch i.Op {
 		case token.ADD:
 			return App("fp.add", SF64, rne, x, y)
@@ -1518,4 +1524,134 @@ func (ex *Exec) phiPoint(phi *ssa.Phi) string {
 		}
 	}
 	return ex.phiNames[phi]
+}
+
+// ---------- integer-valued floats (DESIGN 3.5) ----------
+// Values such as the loop counter of index() and the severity distances are small integers carried
+// in float64.  IEEE-754 addition, subtraction and comparison are exact on integers of magnitude
+// below 2^53; such terms are kept as i2f(n) with n a mathematical integer term of statically bounded
+// magnitude (below 2^20), and the operations are performed on n.
+
+const intFloatBound = 1 << 20
+
+func intBounds(n *Term) (lo, hi int64, ok bool) {
+	switch n.Op {
+	case "int":
+		if n.IV.IsInt64() {
+			v := n.IV.Int64()
+			return v, v, true
+		}
+	case "ite":
+		l1, h1, ok1 := intBounds(n.Args[1])
+		l2, h2, ok2 := intBounds(n.Args[2])
+		if ok1 && ok2 {
+			if l2 < l1 {
+				l1 = l2
+			}
+			if h2 > h1 {
+				h1 = h2
+			}
+			return l1, h1, true
+		}
+	case "+":
+		if len(n.Args) == 2 {
+			l1, h1, ok1 := intBounds(n.Args[0])
+			l2, h2, ok2 := intBounds(n.Args[1])
+			if ok1 && ok2 {
+				return l1 + l2, h1 + h2, true
+			}
+		}
+	case "-":
+		if len(n.Args) == 2 {
+			l1, h1, ok1 := intBounds(n.Args[0])
+			l2, h2, ok2 := intBounds(n.Args[1])
+			if ok1 && ok2 {
+				return l1 - h2, h1 - l2, true
+			}
+		}
+	}
+	return 0, 0, false
+}
+
+// asIntFloat returns the integer term n with t = i2f(n), if t is an integer-valued float term.
+func asIntFloat(t *Term) (*Term, bool) {
+	switch t.Op {
+	case "i2f":
+		return t.Args[0], true
+	case "fp":
+		if t.F == float64(int64(t.F)) && t.F > -intFloatBound && t.F < intFloatBound && !(t.F == 0 && math.Signbit(t.F)) {
+			return IntLit(int64(t.F)), true
+		}
+	case "ite":
+		a, ok1 := asIntFloat(t.Args[1])
+		b, ok2 := asIntFloat(t.Args[2])
+		if ok1 && ok2 {
+			return Ite(t.Args[0], a, b), true
+		}
+	}
+	return nil, false
+}
+
+func init() {
+	eqIntFloat = func(a, b *Term) *Term {
+		x, ok1 := asIntFloat(a)
+		y, ok2 := asIntFloat(b)
+		if ok1 && ok2 {
+			return Eq(x, y)
+		}
+		return nil
+	}
+}
+
+func mkI2F(n *Term) *Term {
+	if n.Op == "int" && n.IV.IsInt64() {
+		return FPLit(float64(n.IV.Int64()))
+	}
+	return App("i2f", SF64, n)
+}
+
+func intFloatOp(op token.Token, x, y *Term) *Term {
+	a, ok1 := asIntFloat(x)
+	b, ok2 := asIntFloat(y)
+	if !ok1 || !ok2 {
+		return nil
+	}
+	// at least one side must be a genuine integer-valued term or both literals
+	var r *Term
+	switch op {
+	case token.ADD:
+		r = IAdd(a, b)
+	case token.SUB:
+		r = ISub(a, b)
+	case token.LSS:
+		return ILt(a, b)
+	case token.LEQ:
+		return ILe(a, b)
+	case token.GTR:
+		return ILt(b, a)
+	case token.GEQ:
+		return ILe(b, a)
+	case token.EQL:
+		return Eq(a, b)
+	case token.NEQ:
+		return Not(Eq(a, b))
+	default:
+		return nil
+	}
+	lo, hi, ok := intBounds(r)
+	if !ok || lo <= -intFloatBound || hi >= intFloatBound {
+		return nil
+	}
+	return mkI2F(r)
+}
+
+// asIndex converts an index of an unsigned integer type to a mathematical integer.
+func asIndex(t *Term) *Term {
+	if isBVSort(t.Sort) {
+		if t.Op == "bv" {
+			return IntLitB(t.IV)
+		}
+		return App("bv2nat", SInt, t)
+	}
+	return t
 }
